@@ -34,9 +34,9 @@ func probeDesign() *m.Design {
 	add := func(name, typ string, resps ...*m.Response) {
 		s.Methods = append(s.Methods, &m.Method{Name: name, Result: m.UserRef(typ), HTTP: &m.HTTPEndpoint{Routes: []m.Route{{Verb: "GET", Path: "/" + name}}, Responses: resps}})
 	}
-	add("point", "Point")
-	add("inner", "Inner", &m.Response{Status: 200, Headers: []m.Mapping{{Attr: "c", Wire: "X-C"}}})
-	add("box", "Box")
+	add("getpoint", "Point")
+	add("getinner", "Inner", &m.Response{Status: 200, Headers: []m.Mapping{{Attr: "c", Wire: "X-C"}}})
+	add("getbox", "Box")
 	d.Services = []*m.Service{s}
 	return d
 }
@@ -59,15 +59,19 @@ func TestProbes(t *testing.T) {
 	f := func(n string, v value.V) value.Field { return value.Field{N: n, V: v} }
 	rt.Probe("C08-recursive-result-type-two-self-refs-loses-attribute", func() (bool, string) {
 		res := value.Object(f("b", value.Object(f("a", value.Object(f("b", value.Object(f("owner", value.Float(1)))), f("owner", value.Float(2)))))))
-		o := do(&harness.Case{Op: "call", Svc: "probe", Method: "point", Stub: harness.StubSpec{HasResult: true, Result: res, View: "default"}})
+		o := do(&harness.Case{Op: "call", Svc: "probe", Method: "getpoint", Stub: harness.StubSpec{HasResult: true, Result: res, View: "default"}})
 		body := ""
 		if o.Response != nil {
 			body = string(o.Response.Body)
 		}
+		if o.Response == nil || o.Response.Status != 200 {
+			t.Logf("point probe: unexpected observation: err=%q panic=%q server=%q resp=%+v", o.Err, firstLines(o.Panic, 3), firstLines(o.ServerPanic, 3), o.Response)
+			return false, "inconclusive"
+		}
 		return !strings.Contains(body, `"owner":1`), "result {b:{a:{b:{owner:1},owner:2}}} of Point{b:Point,a:Point,owner}: wire body " + strings.TrimSpace(body)
 	})
 	rt.Probe("C08-undefined-view-accepted-when-response-has-no-body", func() (bool, string) {
-		c := &harness.Case{Op: "call", Svc: "probe", Method: "inner", Stub: harness.StubSpec{HasResult: true, Result: value.Object(f("c", value.Uint(7))), View: "tiny"}}
+		c := &harness.Case{Op: "call", Svc: "probe", Method: "getinner", Stub: harness.StubSpec{HasResult: true, Result: value.Object(f("c", value.Uint(7))), View: "tiny"}}
 		o := do(c)
 		if o.Response == nil {
 			return false, "no response"
@@ -76,11 +80,13 @@ func TestProbes(t *testing.T) {
 		http.Header(hdr).Set("goa-view", "bogus")
 		c.Canned = &harness.RawResp{Status: o.Response.Status, Header: hdr, Body: o.Response.Body}
 		o2 := do(c)
-		return o2.ClientErr == nil && o2.Panic == "", "response with goa-view: bogus and no body: client error is nil, result " + o2.Result.Canon()
+		t.Logf("inner probe: first err=%q clienterr=%v status=%d; second clienterr=%v panic=%q", o.Err, o.ClientErr, o.Response.Status, o2.ClientErr, firstLines(o2.Panic, 2))
+		return o2.ClientErr == nil && o2.Panic == "" && o2.Err == "", "response with goa-view: bogus and no body: client error is nil, result " + o2.Result.Canon()
 	})
 	rt.Probe("C08-required-object-absent-client-panic", func() (bool, string) {
 		res := value.Object(f("c", value.Int(1)), f("size", value.Object(f("b", value.Int(2)))))
-		o := do(&harness.Case{Op: "call", Svc: "probe", Method: "box", Stub: harness.StubSpec{HasResult: true, Result: res, View: "tiny"}})
+		o := do(&harness.Case{Op: "call", Svc: "probe", Method: "getbox", Stub: harness.StubSpec{HasResult: true, Result: res, View: "tiny"}})
+		t.Logf("box probe: err=%q clienterr=%v panic=%q server=%q", o.Err, o.ClientErr, firstLines(o.Panic, 2), firstLines(o.ServerPanic, 2))
 		return o.Panic != "", "result rendered under view tiny (which omits the required object size): client " + firstLines(o.Panic, 1)
 	})
 }
